@@ -464,6 +464,9 @@ impl Value {
                         }
                     } else if y.is_nan() {
                         Ordering::Greater
+                    } else if x == y {
+                        // covers the infinities: `inf - inf` is NaN, which is not `< EPSILON`.
+                        Ordering::Equal
                     } else if (*x - *y).abs() < f64::EPSILON {
                         Ordering::Equal
                     } else if *x < *y {
